@@ -317,7 +317,13 @@ impl Deserializable for TraceInfo {
                 trace_length
             )));
         }
-        let trace_length = 2_usize.pow(trace_length as u32);
+        let trace_length = 1_usize.checked_shl(trace_length as u32).ok_or_else(|| {
+            DeserializationError::InvalidValue(format!(
+                "trace length cannot be greater than 2^{}, but was 2^{}",
+                usize::BITS - 1,
+                trace_length
+            ))
+        })?;
 
         // read trace metadata
         let num_meta_bytes = source.read_u16()? as usize;
